@@ -182,6 +182,17 @@ def _write_fmt(m, args, raw):
     return Ok(UNIT)
 
 
+@model("^<.* as Write>::write_all$", "Write::write_all")
+def _write_all(m, args, raw):
+    """io::Write::write_all on the recording sink: the bytes of the slice, in order (other writers: diagnostics, not the subject)"""
+    sink = find_sink(args[0])
+    if sink is not None:
+        from models import as_list
+        items, a, b = as_list(args[1])
+        sink.bytes.extend(items[a:b])
+    return Ok(UNIT)
+
+
 @model("Formatter::write_str")
 def _write_str(m, args, raw):
     sink = find_sink(args[0])
